@@ -871,10 +871,41 @@ sx_bytes = _BytesNS()
 
 
 class SymBytesVar:
-    """int.to_bytes(n, 'little') with a data-dependent length n: the integer and the length term"""
+    """int.to_bytes(n, 'little') with a data-dependent length n: the integer and the (symbolic) length in bytes"""
 
     def __init__(self, value, length):
-        self.value, self.length = value, length
+        self.value, self.length = value, SymInt.lift(length)
+
+    def __sx_len__(self):
+        return self.length
+
+    def _byte(self, i):
+        v = self.value
+        if 8 * i + 8 > v.w:
+            t = v.ext(8 * i + 9)
+        else:
+            t = v.t
+        return SymInt(z3.ZeroExt(1, z3.Extract(8 * i + 7, 8 * i, t)), 8)
+
+    def __getitem__(self, i):
+        if isinstance(i, slice):
+            if i.step not in (None, 1):
+                raise Unsupported("stepped slice of variable-length bytes")
+            start = 0 if i.start is None else i.start
+            stop = i.stop
+            if isinstance(start, SymInt):
+                start = EX().concretize(start.t)
+            # effective stop = min(stop, length): fork on the (small) set of feasible values
+            eff = self.length if stop is None else sx_min(SymInt.lift(stop), self.length)
+            eff = EX().concretize(SymInt.lift(eff).t) if isinstance(eff, SymInt) else eff
+            return SymBytes([self._byte(k) for k in range(start, max(start, eff))])
+        if isinstance(i, SymInt):
+            i = EX().concretize(i.t)
+        if i < 0:
+            raise Unsupported("negative index into variable-length bytes")
+        if bool(SymInt.lift(i) >= self.length):
+            raise IndexError("index out of range")
+        return self._byte(i)
 
 
 def int_from_bytes(b, byteorder="big", *, signed=False):
@@ -930,6 +961,8 @@ def sx_round(x, n=None):
 
 
 def sx_len(x):
+    if hasattr(x, "__sx_len__"):
+        return x.__sx_len__()
     return builtins.len(x)
 
 
